@@ -453,13 +453,14 @@ theorem C17_derivation_stateless :
 
 /-- **(R)** field mapping of the `lnrpc.OpenChannelRequest` literal in `BatchChannelSetup` and of the
 `lnrpc.ChanPointShim` / `lnrpc.ChannelPoint` literals in `deriveFundingShim`, regenerated from the source: the fields
-the model's `batchChannelSetup` / `deriveFundingShim` fill, from the same expressions. -/
+the model's `batchChannelSetup` / `deriveFundingShim` fill, from the same expressions (locals that are defined once by
+a selector / type assertion are replaced by their definition, so their names do not matter). -/
 theorem C17_literal_fields :
     Gen.C17.openChannelRequestFields =
       [("NodePubkey", "matchedOrder.NodeKey[:]"), ("LocalFundingAmount", "int64(chanAmt)"),
-       ("FundingShim", "fundingShim"), ("PushSat", "int64( matchedOrderBid.SelfChanBalance, )"),
-       ("CommitmentType", "commitmentType"), ("Private", "private"),
-       ("ZeroConf", "matchedOrderBid.ZeroConfChannel")] ∧
+       ("FundingShim", "fundingShim"), ("PushSat", "int64(matchedOrder.Order.(*order.Bid).SelfChanBalance)"),
+       ("CommitmentType", "commitmentType"), ("Private", "matchedOrder.Order.(*order.Bid).UnannouncedChannel"),
+       ("ZeroConf", "matchedOrder.Order.(*order.Bid).ZeroConfChannel")] ∧
     Gen.C17.chanPointShimFields.map Prod.fst =
       ["Amt", "ChanPoint", "LocalKey", "RemoteKey", "PendingChanId", "ThawHeight", "Musig2"] ∧
     Gen.C17.chanPointShimFields.filter (fun f => f.1 != "LocalKey") =
@@ -475,14 +476,14 @@ theorem C17_projection_fields :
     Gen.C17.submitServerBidFields.filter
         (fun f => f.1 == "SelfChanBalance" || f.1 == "UnannouncedChannel" || f.1 == "ZeroConfChannel" ||
                   f.1 == "LeaseDurationBlocks") =
-      [("LeaseDurationBlocks", "castOrder.LeaseDuration"), ("SelfChanBalance", "uint64(castOrder.SelfChanBalance)"),
-       ("UnannouncedChannel", "castOrder.UnannouncedChannel"), ("ZeroConfChannel", "castOrder.ZeroConfChannel")] ∧
+      [("LeaseDurationBlocks", "o.(type).LeaseDuration"), ("SelfChanBalance", "uint64(o.(type).SelfChanBalance)"),
+       ("UnannouncedChannel", "o.(type).UnannouncedChannel"), ("ZeroConfChannel", "o.(type).ZeroConfChannel")] ∧
     Gen.C17.parseServerBidFields =
       [("Kit", "*kit"), ("SelfChanBalance", "btcutil.Amount(details.SelfChanBalance)"),
        ("UnannouncedChannel", "details.UnannouncedChannel"), ("ZeroConfChannel", "details.ZeroConfChannel")] ∧
     Gen.C17.sidecarAsOrderFields =
       [("Kit", "*kit"), ("SidecarTicket", "ticket"), ("SelfChanBalance", "ticket.Offer.PushAmt"),
-       ("UnannouncedChannel", "unannounced"), ("ZeroConfChannel", "zeroConf")] ∧
+       ("UnannouncedChannel", "ticket.Offer.UnannouncedChannel"), ("ZeroConfChannel", "ticket.Offer.ZeroConfChannel")] ∧
     Gen.C17.baseSupplyUnit = 100000 := by
   refine ⟨by decide, by decide, by decide, by decide⟩
 
